@@ -4,7 +4,7 @@
 # /repo itself and /verif/evidence are not touched.  Scratch copies live under /dev/shm and are removed at the end.
 set -u
 cd /verif
-ids=("$@"); [ ${#ids[@]} -eq 0 ] && ids=($(ls seeded))
+ids=("$@"); [ ${#ids[@]} -eq 0 ] && ids=($(ls seeded | grep -E "^C[0-9]+-[0-9]+$"))
 props=$(python3 -c "import json;print(' '.join(c['property_id'] for c in json.load(open('MANIFEST.json'))['checks']))" 2>/dev/null || echo "")
 [ -z "$props" ] && props=$(ls harness/props | sed -n 's/^c\([0-9][0-9]\)\.py$/C\1/p')
 run_one() {
